@@ -201,7 +201,79 @@ func (g *AGen) Val(d *Def, depth int) (*Val, error) {
 		}
 		v.Fields[i] = f
 	}
+	// A group is present exactly when at least one of its members is non-zero (the library's presence rule, C01):
+	// a present group whose members are all zero cannot be expressed as a Go value, so it is not generated.
+	for bit, on := range bits {
+		if !on {
+			continue
+		}
+		allZero, first := true, -1
+		for i, p := range d.Params {
+			if !p.Type.Optional || p.Type.Bit != bit {
+				continue
+			}
+			if !zeroish(v.Fields[i]) {
+				allZero = false
+			}
+			if first < 0 {
+				first = i
+			}
+		}
+		if allZero && first >= 0 {
+			v.Fields[first] = nonZero(d.Params[first].Type, v.Fields[first])
+			g.feat("group-forced-non-zero")
+		}
+	}
 	return v, nil
+}
+
+func zeroish(x any) bool {
+	switch t := x.(type) {
+	case nil:
+		return true
+	case int32:
+		return t == 0
+	case int64:
+		return t == 0
+	case float64:
+		return t == 0
+	case bool:
+		return !t
+	case []byte:
+		return len(t) == 0
+	case []any:
+		return len(t) == 0
+	}
+	return false // objects
+}
+
+func nonZero(t Type, old any) any {
+	switch t.Kind {
+	case "int":
+		return int32(1)
+	case "long":
+		return int64(1)
+	case "double":
+		return float64(0.5)
+	case "string", "bytes":
+		return []byte{'x'}
+	case "Bool":
+		return true
+	case "vector":
+		switch t.Elem.Kind {
+		case "int":
+			return []any{int32(0)}
+		case "long":
+			return []any{int64(0)}
+		case "string", "bytes":
+			return []any{[]byte{}}
+		case "double":
+			return []any{float64(0)}
+		case "Bool":
+			return []any{false}
+		}
+	}
+	return old
 }
 
 func (g *AGen) typ(t Type, depth int) (any, error) {
